@@ -335,6 +335,12 @@ impl Prop for C02 {
                     }
                 }
             }
+            // first-byte sweeps: every mask / type byte of DataValue, DiagnosticInfo, LocalizedText, NodeId,
+            // ExpandedNodeId and the ExtensionObject body (6 x 256 points, one per case)
+            {
+                let (ty, b) = byte_sweep(case);
+                out.push(format!("dec {} {} x{}", ty, Lim::default().show(), hex(&b)));
+            }
             // (iii) nesting families
             {
                 let (ty, prefix, tail) = rng.pick(&fams).clone();
